@@ -35,8 +35,8 @@ Print Assumptions C07_rest_cook_oracle_irrelevant.
 
 Theorem C07_refuted_K_rest_alias_dup :
   ~ alias_injective dup_method /\ legal id_oracle /\ legal rev_oracle /\
-  option_map md_pathparams (rest_method id_oracle dup_file dup_method) <>
-  option_map md_pathparams (rest_method rev_oracle dup_file dup_method).
+  option_map md_pathparams (rest_method id_oracle {| pv_hand := []; pv_gen := [] |} dup_file dup_method) <>
+  option_map md_pathparams (rest_method rev_oracle {| pv_hand := []; pv_gen := [] |} dup_file dup_method).
 Proof. exact (conj alias_dup_not_injective (conj legal_id (conj legal_rev alias_dup_order_dependent))). Qed.
 Print Assumptions C07_refuted_K_rest_alias_dup.
 
